@@ -29,6 +29,16 @@ CKD(st, comp) ==
       ELSE LET k2 == BnAddMod(BnNorm(IL), BnNorm(st.k), CurveN)
            IN  IF BnIsZero(k2) THEN Invalid ELSE Ext(BnFixed(k2, 32), SubSeq(I, 33, 64))
 
+\* ---- rare shapes ----------------------------------------------------------------------
+\* The smallest hardened index i in lo..hi whose child of st is valid and starts with at least nz zero bytes
+\* (-1 if none).  RareHardenedChild is evaluated natively (overrides/HdwPrims.java) so that a window of 2^20
+\* candidates can be searched; RareHardenedChildSpec is the same definition evaluated by TLC (PrimTest compares them).
+LeadingZeroBytes(b) == FirstNonZero(b, 1) - 1
+RareHardenedChildSpec(k, c, nz, lo, hi) ==
+  LET S == {i \in lo..hi : LET ch == CKD(Ext(k, c), Comp(TRUE, BnFromNat(i))) IN ch.ok /\ LeadingZeroBytes(ch.k) >= nz}
+  IN  IF S = {} THEN 0 - 1 ELSE CHOOSE i \in S : \A q \in S : i <= q
+RareHardenedChild(k, c, nz, lo, hi) == RareHardenedChildSpec(k, c, nz, lo, hi)
+
 RECURSIVE DeriveFrom(_, _, _)
 DeriveFrom(st, comps, i) == IF i > Len(comps) THEN st ELSE DeriveFrom(CKD(st, comps[i]), comps, i + 1)
 Derive(seed, comps) ==
